@@ -210,6 +210,22 @@ class Monitor:
                     break
                 gens.append(dst)
             ctx.case((self.shape, self.leaf, self.keyfile, repr(W.snapshot(cfg, abstract=True)), row), "roundtrip:%s:%s" % (fmt, "ok" if ok else "bad"), not default_state)
+            if ok and self.keyfile == "own" and ("secure" in self.leaf) and not opts:
+                # the re-loaded configuration is given another key file and saved again: the document must then
+                # load with that key file (nothing remembered from the first load may leak into the second save)
+                ctx.transitions += 1
+                try:
+                    src = gens[-1]
+                    src._key_filename = self.keypath + ".second"
+                    data3 = src.dumps(fmt)
+                    dst = self.built.schema()
+                    dst._key_filename = self.keypath + ".second"
+                    dst.loads(data3, fmt)
+                    diffs = compare(orig, cc.asdict(dst), self.spec)
+                    if diffs:
+                        bad("differs-after-key-change|%s" % row, "after the key file was changed and the configuration saved again, %s reloads differently: %s" % (row, diffs[:3]))
+                except Exception as exc:  # noqa
+                    bad("raises-after-key-change|%s" % row, "after the key file was changed: %r" % (exc,))
             if not opts and ok:
                 # through real files
                 path = os.path.join(self.tmp, "saved." + fmt)
